@@ -152,23 +152,26 @@ pub open spec fn parse_C09(decode: bool, r: Result<AisFragments>) -> bool {
 /// with the last fragment's fill count; an accepted fragment is buffered exactly (nothing dropped, duplicated, shifted or left over
 /// from an earlier group).  Rejections and acceptance decisions are NOT part of this clause (C05/C06/C17 own them).
 /// One named copy per property so that a refutation is attributed.
-pub open spec fn parse_msg(pre: PState, post: PState, line: Seq<u8>, decode: bool, r: Result<AisFragments>) -> bool {
+pub open spec fn parse_msg(must: bool, pre: PState, post: PState, line: Seq<u8>, decode: bool, r: Result<AisFragments>) -> bool {
     &&& (decode && r is Ok && r->Ok_0 is Complete ==> ({
             let s = r->Ok_0->Complete_0;
-            &&& s.message is Some && decoded(s.data@, s.fill_bit_count as int, s.message->Some_0)
+            // `must`: a delivered sentence carries a message at all (C14: what cannot be decoded is an error; C09 has its own clause);
+            // for the other properties only "IF a message is delivered it is the right one" is theirs
+            &&& (must ==> s.message is Some)
+            &&& (s.message is Some ==> decoded(s.data@, s.fill_bit_count as int, s.message->Some_0))
             &&& (n_ok(line) ==> match step(pre, line).1 { Outcome::Complete(v) => s@.data == v.data && s@.fill == v.fill, _ => true })
         }))
     &&& (n_ok(line) && r is Ok && r->Ok_0 is Incomplete ==> match step(pre, line).1 { Outcome::Incomplete(v) => post.data == step(pre, line).0.data, _ => true })
 }
-pub open spec fn parse_msg_C03(pre: PState, post: PState, line: Seq<u8>, decode: bool, r: Result<AisFragments>) -> bool { parse_msg(pre, post, line, decode, r) }
-pub open spec fn parse_msg_C04(pre: PState, post: PState, line: Seq<u8>, decode: bool, r: Result<AisFragments>) -> bool { parse_msg(pre, post, line, decode, r) }
-pub open spec fn parse_msg_C10(pre: PState, post: PState, line: Seq<u8>, decode: bool, r: Result<AisFragments>) -> bool { parse_msg(pre, post, line, decode, r) }
-pub open spec fn parse_msg_C11(pre: PState, post: PState, line: Seq<u8>, decode: bool, r: Result<AisFragments>) -> bool { parse_msg(pre, post, line, decode, r) }
-pub open spec fn parse_msg_C12(pre: PState, post: PState, line: Seq<u8>, decode: bool, r: Result<AisFragments>) -> bool { parse_msg(pre, post, line, decode, r) }
-pub open spec fn parse_msg_C13(pre: PState, post: PState, line: Seq<u8>, decode: bool, r: Result<AisFragments>) -> bool { parse_msg(pre, post, line, decode, r) }
-pub open spec fn parse_msg_C14(pre: PState, post: PState, line: Seq<u8>, decode: bool, r: Result<AisFragments>) -> bool { parse_msg(pre, post, line, decode, r) }
-pub open spec fn parse_msg_C15(pre: PState, post: PState, line: Seq<u8>, decode: bool, r: Result<AisFragments>) -> bool { parse_msg(pre, post, line, decode, r) }
-pub open spec fn parse_msg_C16(pre: PState, post: PState, line: Seq<u8>, decode: bool, r: Result<AisFragments>) -> bool { parse_msg(pre, post, line, decode, r) }
+pub open spec fn parse_msg_C03(pre: PState, post: PState, line: Seq<u8>, decode: bool, r: Result<AisFragments>) -> bool { parse_msg(false, pre, post, line, decode, r) }
+pub open spec fn parse_msg_C04(pre: PState, post: PState, line: Seq<u8>, decode: bool, r: Result<AisFragments>) -> bool { parse_msg(false, pre, post, line, decode, r) }
+pub open spec fn parse_msg_C10(pre: PState, post: PState, line: Seq<u8>, decode: bool, r: Result<AisFragments>) -> bool { parse_msg(false, pre, post, line, decode, r) }
+pub open spec fn parse_msg_C11(pre: PState, post: PState, line: Seq<u8>, decode: bool, r: Result<AisFragments>) -> bool { parse_msg(false, pre, post, line, decode, r) }
+pub open spec fn parse_msg_C12(pre: PState, post: PState, line: Seq<u8>, decode: bool, r: Result<AisFragments>) -> bool { parse_msg(false, pre, post, line, decode, r) }
+pub open spec fn parse_msg_C13(pre: PState, post: PState, line: Seq<u8>, decode: bool, r: Result<AisFragments>) -> bool { parse_msg(false, pre, post, line, decode, r) }
+pub open spec fn parse_msg_C14(pre: PState, post: PState, line: Seq<u8>, decode: bool, r: Result<AisFragments>) -> bool { parse_msg(true, pre, post, line, decode, r) }
+pub open spec fn parse_msg_C15(pre: PState, post: PState, line: Seq<u8>, decode: bool, r: Result<AisFragments>) -> bool { parse_msg(false, pre, post, line, decode, r) }
+pub open spec fn parse_msg_C16(pre: PState, post: PState, line: Seq<u8>, decode: bool, r: Result<AisFragments>) -> bool { parse_msg(false, pre, post, line, decode, r) }
 /// C19 at the parser level: whatever is returned (Complete or Incomplete) reports the type of THIS line's payload
 pub open spec fn parse_C19(line: Seq<u8>, r: Result<AisFragments>) -> bool {
     r is Ok ==> mtype_at(line, n_d(line) + 1, match r->Ok_0 { AisFragments::Complete(s) => s.message_type, AisFragments::Incomplete(s) => s.message_type })
